@@ -15,7 +15,7 @@ EXPLANATION = ("Real Memoer.gramit / _serviceOnceTxGrams / serviceTxGramsOnce / 
                "to 0 and re-raises other errnos for the symbolic errno.")
 FUNCTIONS = [('hio.core.memo.memoing', 'Memoer._serviceOnceTxGrams'), ('hio.core.memo.memoing', 'Memoer.serviceTxGramsOnce'), ('hio.core.memo.memoing', 'Memoer.serviceTxGrams'),
              ('hio.core.memo.memoing', 'Memoer.gramit'), ('hio.core.udp.udping', 'Peer.send')]
-BOUNDS = {'quick': dict(grams=2, calls=3, budget_s=150, audit_max=8), 'thorough': dict(grams=3, calls=4, budget_s=1500, audit_max=20)}
+BOUNDS = {'quick': dict(grams=2, calls=3, budget_s=150, audit_max=8), 'thorough': dict(grams=3, calls=3, budget_s=1500, audit_max=20)}
 OUTSIDE = ['more grams / service calls under back-pressure than the bound', 'grams longer than 3 bytes', 'real sockets', 'the memo -> gram segmentation (C20)']
 STUBS = ['scripted transport send(); FakeNet sendto for the udp Peer.send form']
 ASSUMPTIONS = ['a transport send() never reports more bytes than offered']
